@@ -1,6 +1,6 @@
 (* C12 -- Strict mode never silently accepts malformed programs (clauses about WHERE the
    first error is reported).  Property theorems only. *)
-Require Import Base Token Lexer Tree Parser ParserSpec Grammar GrammarLax CausalityProofs SoundnessProofs.
+Require Import Base Token Lexer Tree Parser ParserSpec Grammar GrammarLax CausalityProofs SoundnessProofs RefutedStrict.
 Require Import Gen.Tables.
 
 (* an error located at a token of [toks] whose index is at least [k], or at the repeated
@@ -53,3 +53,34 @@ Theorem C12_lax_contains_strict : forall p toks,
   m_programL p toks = true /\ wf_programL p = true.
 Proof. exact strict_in_lax. Qed.
 Print Assumptions C12_lax_contains_strict.
+
+(* REFUTED CLAUSES (recorded findings as theorems; witnesses evaluated by the kernel): with
+   respect to Grammar.v itself (not its relaxation GrammarLax.v) soundness is FALSE - strict
+   mode accepts, without error, the token lists of  a+b=c  and  1++  (KF6),  a.'x'  (KF7),
+   a++(b)  (KF11),  if(a)let x=1  (KF12), which are the unparsing of NO tree of the grammar.
+   (By C02_parse_complete a tree of the grammar would be the one the parser returns; that one
+   is evaluated and is not well formed.) *)
+Definition accepted_outside_the_grammar (src : str) : Prop :=
+  exists toks r, tokenize src = Some toks /\ parse_tokens cfg_default toks = Some r /\
+                 pr_errors r = [] /\ pr_err_returned r = false /\
+                 forall p, m_program p toks = true -> wf_program p = true -> False.
+
+Theorem C12_assignment_target_refuted : accepted_outside_the_grammar kf6_src.
+Proof. exact kf6_assignment_target_refuted. Qed.
+Print Assumptions C12_assignment_target_refuted.
+
+Theorem C12_increment_target_refuted : accepted_outside_the_grammar kf6b_src.
+Proof. exact kf6_increment_target_refuted. Qed.
+Print Assumptions C12_increment_target_refuted.
+
+Theorem C12_member_name_refuted : accepted_outside_the_grammar kf7_src.
+Proof. exact kf7_member_name_refuted. Qed.
+Print Assumptions C12_member_name_refuted.
+
+Theorem C12_postfix_callee_refuted : accepted_outside_the_grammar kf11_src.
+Proof. exact kf11_postfix_callee_refuted. Qed.
+Print Assumptions C12_postfix_callee_refuted.
+
+Theorem C12_declaration_as_body_refuted : accepted_outside_the_grammar kf12_src.
+Proof. exact kf12_declaration_body_refuted. Qed.
+Print Assumptions C12_declaration_as_body_refuted.
